@@ -159,8 +159,8 @@ def _idempotence_oracle(name, doc, out, exc, kw):
         if one != two or two != three:
             from bounded import oracles
 
-            if not name.startswith("pinned:") and oracles.defs_sorted(one) == oracles.defs_sorted(two) == oracles.defs_sorted(three):
-                continue  # ONLY the order of the gradients inside defs differs (bytes otherwise equal): recorded finding F19, pinned document defs_order_unstable
+            if not name.startswith("pinned:") and two == three and oracles.defs_sorted(one) == two:
+                continue  # F19 by its signature: pass 1 differs from the fixpoint ONLY in the order of the gradients inside defs, and the fixpoint (pass 2 == pass 3) has them sorted by id; pinned document defs_order_unstable
             probs.append(("not-idempotent", f"ndigits={nd}: pass 1 {'!=' if one != two else '=='} pass 2 {'!=' if two != three else '=='} pass 3"))
             break
         bad = SVG.fromstring(one).checkpicosvg(**{k: v for k, v in kw.items() if k in ("allow_text",)})
